@@ -29,6 +29,7 @@ PROPERTY = {
     "trusted_base": ["CPython executes the real decoders and lifters; the sampling and the structural checks are written in "
                      "props/C14.py"],
     "assumptions": ["seeded family: 14 architectures / modes x 40 chunks x 250 strings quick (x 400 chunks thorough)",
+                    "curated family: every vector of test/arch/{x86,arm,aarch64,mips32,ppc32,msp430}/arch.py (read with ast) and all its boundary variants (last 1 / 2 / 4 / 8 bytes replaced by limits of every narrower width; quick: every sixth group of 10 vectors)",
                     "an instruction the decoder refuses is not a case"],
 }
 
@@ -187,15 +188,25 @@ _CHUNK = {}
 
 
 def run_chunk(a, k):
-    """-> (number of instructions lifted to IR, [(tag, text)]) for the 250 byte strings of chunk k of architecture a"""
+    """-> (number of instructions lifted to IR, [(tag, text)]).  k = int: the 250 random byte strings of chunk k of architecture a;
+    k = ('cur', j): the curated vectors 10j .. 10j+9 of test/arch/<arch>/arch.py and all their boundary variants (props/C15.py)"""
     if (a, k) not in _CHUNK:
         name, attrib = ARCHS[a]
-        rng = random.Random(1400 + 1000 * a + k)
+        todo = []
+        if isinstance(k, tuple):
+            from props import C15
+            for b in C15.curated(name)[C15.CUR_CHUNK * k[1]:C15.CUR_CHUNK * (k[1] + 1)]:
+                data = b + bytes(16 - len(b)) if len(b) < 16 else b
+                todo.append((data, 0x1000))
+                todo += [(v, 0x1000) for v in C15.boundary_variants(data, len(b))]
+        else:
+            rng = random.Random(1400 + 1000 * a + k)
+            for _ in range(250):
+                data = bytes(rng.getrandbits(8) for _ in range(16))
+                todo.append((data, rng.choice((0, 0x1000, 0x401000, 0x80001000))))
         fails = []
         n = 0
-        for _ in range(250):
-            data = bytes(rng.getrandbits(8) for _ in range(16))
-            addr = rng.choice((0, 0x1000, 0x401000, 0x80001000))
+        for data, addr in todo:
             why = check_one(name, attrib, data, addr)
             if why is None or why == "-":
                 continue
@@ -216,16 +227,20 @@ class LiftCases(BoundedContract):
         return [Lifter.add_instr_to_ircfg, Lifter.instr2ir, AssignBlock._set, IRBlock.dst.fget]
 
     def cases(self):
+        from props import C15
         n = 40 if self.tier == "quick" else 400
         out = []
         for a in range(len(ARCHS)):
             fam = family(ARCHS[a][0])
             gids = sorted(g for g, (f, _) in groups().items() if f == fam) + [""]
-            out += [(a, k, g) for k in range(n) for g in gids]
+            ncur = (len(C15.curated(ARCHS[a][0])) + C15.CUR_CHUNK - 1) // C15.CUR_CHUNK
+            ks = list(range(n)) + [("cur", j) for j in range(ncur) if self.tier != "quick" or j % 6 == 0]
+            out += [(a, k, g) for k in ks for g in gids]
         return out
 
     def show(self, case):
-        return "%s chunk %d%s" % (ARCHS[case[0]][0], case[1], " (classes of %s)" % case[2] if case[2] else " (every other class)")
+        return "%s %s%s" % (ARCHS[case[0]][0], "chunk %d" % case[1] if isinstance(case[1], int) else "curated vectors %d..%d and their boundary variants" % (
+            10 * case[1][1], 10 * case[1][1] + 9), " (classes of %s)" % case[2] if case[2] else " (every other class)")
 
     def check(self, case):
         a, k, g = case
